@@ -30,7 +30,10 @@ ASSUMPTIONS = [
 RULE = ("path AST of depth <= 4 (iri, ^, /, |, * + ?, negated sets) x graph of <= 8 triples over <= 5 nodes with self-loops, 2-cycles, "
         "literal and falsy end points x each end unbound / bound to a node / bound to a term outside the graph x route "
         "(triples, subjects/objects, ConjunctiveGraph union, SPARQL constants, SPARQL initBindings); distinct by full case content; "
-        "non-trivial = non-empty answer or composite path")
+        "non-trivial = non-empty answer or composite path.  Suite path_history: one Graph (or ConjunctiveGraph) object, 1-3 patterns "
+        "re-evaluated between mutations (60% size-preserving remove+add, add, remove; Graph.add/remove or SPARQL INSERT DATA / DELETE DATA / "
+        "DELETE..INSERT..WHERE {}), every evaluation judged against the triples present at that moment; non-trivial = at least two "
+        "evaluations, a mutation and a non-empty answer")
 
 NODE_VOCAB = [1, 2, 12, 8, 13, 5, 6, 7, 10, 14]   # a b c _:b1 _:b2 "" 0 false "x" 0.0
 LITS = {5, 6, 7, 9, 10, 11, 14}
@@ -376,4 +379,274 @@ class C11(Suite):
                         yield {"g": g, "path": p, "s": s, "o": o, "via": via}
 
 
-SUITES = [C11()]
+
+# ---------------------------------------------------------------------------
+# Histories on ONE graph object: evaluations interleaved with mutations.
+# case = {"kind": "graph"|"cg", "g": [[s,p,o]..], "steps": [step..]}
+# step = ["eval", ast, s|None, o|None, via] | ["add", [s,p,o], how] | ["del", [s,p,o], how]
+#        | ["swap", [s,p,o] (removed), [s,p,o] (added), how]     how = "api" | "update"
+_ONE = C11()
+
+
+def eval_on(g, path, s, o, via):
+    """one evaluation of (s, path, o) on the live graph object g"""
+    st = None if s is None else term(s)
+    ot = None if o is None else term(o)
+    if via.startswith("sparql"):
+        return _ONE._sparql(g, {"via": via, "path": path}, st, ot)
+    p = build(path)
+    if ast_of(p) != path:
+        raise AssertionError("harness: path object differs from the case's AST")
+    if via == "so":
+        if st is not None and ot is None:
+            return [[term_id(st), term_id(y)] for y in g.objects(st, p)]
+        if st is None and ot is not None:
+            return [[term_id(x), term_id(ot)] for x in g.subjects(p, ot)]
+        if st is None and ot is None:
+            return [[term_id(x), term_id(y)] for x, y in g.subject_objects(p)]
+    return [[term_id(x), term_id(y)] for x, _, y in g.triples((st, p, ot))]
+
+
+def updatable(t):
+    s, p, o = (term(x) for x in t)
+    return isinstance(s, URIRef) and isinstance(o, (URIRef, Literal))
+
+
+def n3t(t):
+    return " ".join(term(x).n3() for x in t) + " ."
+
+
+class C11H(Suite):
+    name = "path_history"
+    imports = "From RV Require Import Paths.Model."
+    case_ty = "hcase"
+    obs_ty = "hobs"
+    model = "hmodel_obs"
+    oeq = "hobs_eqb"
+    spec = "hspec_ok"
+    kf = "hkf"
+    kf_ids = {1: "F4b", 2: "F4c", 3: "F4d", 4: "F4e"}
+    corr = ("Graph.triples / subjects / objects / SPARQL evaluation of path patterns on one Graph object between "
+            "Graph.add / Graph.remove / SPARQL Update calls (answers must follow the data)")
+    quick_n = 700
+    thorough_n = 12000
+    timeout_s = 15.0
+
+    def gen(self, rng, i):
+        kind = "cg" if rng.random() < 0.15 else "graph"
+        k = rng.choice([2, 3, 3, 4])
+        vocab = rng.sample(NODE_VOCAB, k)
+        preds = list(PREDS)
+        subj_ok = [v for v in vocab if v not in LITS] or vocab
+
+        def rtriple():
+            s = rng.choice(vocab if rng.random() < 0.15 else subj_ok)
+            return [s, rng.choice(preds), s if rng.random() < 0.1 else rng.choice(vocab)]
+
+        g = []
+        for _ in range(rng.choice([1, 2, 3, 3, 4, 5])):
+            t = rtriple()
+            if t not in g:
+                g.append(t)
+        cur = [list(t) for t in g]
+
+        def end():
+            r = rng.random()
+            if r < 0.5:
+                return None
+            return rng.choice(vocab) if r < 0.9 else rng.choice([9, 11])
+
+        def pattern():
+            d = rng.choice([1, 2, 2, 3, 3])
+            via = rng.choice(["triples", "triples", "so", "sparql", "sparql_bind"]) if kind == "graph" else "triples"
+            while True:
+                ast = gen_path(rng, d, preds, singles=False)
+                # keep the known findings rare here: they would only hide a stale answer of the same step
+                if not contains_inv_member(ast) and not (ast[0] == "neg" and not ast[1] and via.startswith("sparql")):
+                    break
+            return [ast, end(), end(), via]
+
+        pats = [pattern() for _ in range(rng.choice([1, 2, 2, 3]))]
+        steps = []
+        for _ in range(rng.choice([2, 3, 3, 4, 5])):
+            pat = rng.choice(pats)
+            steps.append(["eval"] + pat)
+            if rng.random() < 0.3:
+                steps.append(["eval"] + rng.choice(pats))
+            how = "update" if (kind == "graph" and rng.random() < 0.35) else "api"
+            r = rng.random()
+            if r < 0.6 and cur:
+                old = rng.choice(cur)
+                new = rtriple()
+                for _ in range(5):
+                    if new not in cur:
+                        break
+                    new = rtriple()
+                if new in cur:
+                    continue
+                if how == "update" and not (updatable(old) and updatable(new)):
+                    how = "api"
+                steps.append(["swap", old, new, how])
+                cur.remove(old)
+                cur.append(new)
+            elif r < 0.8:
+                new = rtriple()
+                if how == "update" and not updatable(new):
+                    how = "api"
+                steps.append(["add", new, how])
+                if new not in cur:
+                    cur.append(new)
+            elif cur:
+                old = rng.choice(cur)
+                if how == "update" and not updatable(old):
+                    how = "api"
+                steps.append(["del", old, how])
+                cur.remove(old)
+        steps.append(["eval"] + rng.choice(pats))
+        if rng.random() < 0.5:
+            steps.append(["eval"] + rng.choice(pats))
+        return {"kind": kind, "g": g, "steps": steps}
+
+    # ------------------------------------------------------------ implementation
+    def run_impl(self, case):
+        if case["kind"] == "cg":
+            g = ConjunctiveGraph()
+            ctx = [g.get_context(GRAPH_POOL[0]), g.get_context(GRAPH_POOL[1])]
+            n = [0]
+
+            def add(t):
+                ctx[n[0] % 2].add(t)
+                n[0] += 1
+        else:
+            g = Graph()
+            add = g.add
+        for t in case["g"]:
+            add(tuple(term(x) for x in t))
+        obs = []
+        for st in case["steps"]:
+            if st[0] == "eval":
+                try:
+                    obs.append(["ok", sorted(eval_on(g, st[1], st[2], st[3], st[4]))])
+                except RecursionError:
+                    obs.append(["timeout"])
+                except Exception as e:  # noqa: BLE001
+                    obs.append(["raised", type(e).__name__ + ": " + str(e)[:80]])
+            elif st[0] == "add":
+                if st[2] == "update":
+                    g.update("INSERT DATA { %s }" % n3t(st[1]))
+                else:
+                    add(tuple(term(x) for x in st[1]))
+            elif st[0] == "del":
+                if st[2] == "update":
+                    g.update("DELETE DATA { %s }" % n3t(st[1]))
+                else:
+                    g.remove(tuple(term(x) for x in st[1]))
+            else:
+                if st[3] == "update":
+                    g.update("DELETE { %s } INSERT { %s } WHERE { }" % (n3t(st[1]), n3t(st[2])))
+                else:
+                    g.remove(tuple(term(x) for x in st[1]))
+                    add(tuple(term(x) for x in st[2]))
+        return obs
+
+    def on_timeout(self, case):
+        return [["timeout"] for st in case["steps"] if st[0] == "eval"]
+
+    # ------------------------------------------------------------ Coq text
+    def coq_case(self, case):
+        def tr(t):
+            return ctuple(cN(t[0]), cN(t[1]), cN(t[2]))
+
+        steps = []
+        for st in case["steps"]:
+            if st[0] == "eval":
+                steps.append(f"HEval {c_path(st[1])} {copt(st[2], cN)} {copt(st[3], cN)} {cbool(st[4].startswith('sparql'))}")
+            elif st[0] == "add":
+                steps.append("HAdd " + tr(st[1]))
+            elif st[0] == "del":
+                steps.append("HDel " + tr(st[1]))
+            else:
+                steps.append("HDel " + tr(st[1]))
+                steps.append("HAdd " + tr(st[2]))
+        return "{| h_g := " + clist(tr(t) for t in case["g"]) + "; h_steps := " + clist(steps) + " |}"
+
+    def coq_obs(self, obs):
+        return clist(_ONE.coq_obs(o) for o in obs)
+
+    def nontrivial(self, case, obs):
+        kinds = [st[0] for st in case["steps"]]
+        return kinds.count("eval") >= 2 and any(k != "eval" for k in kinds) and any(o[0] == "ok" and o[1] for o in obs)
+
+    def features(self, case, obs):
+        f = {"kind_" + case["kind"]: 1, "steps_total": len(case["steps"])}
+        seen = set()
+        for st in case["steps"]:
+            f["step_" + st[0]] = f.get("step_" + st[0], 0) + 1
+            if st[0] == "eval":
+                key = str(st[1:4])
+                if key in seen:
+                    f["pattern_re_evaluated"] = f.get("pattern_re_evaluated", 0) + 1
+                seen.add(key)
+                f["eval_via_" + st[4]] = f.get("eval_via_" + st[4], 0) + 1
+            elif st[-1] == "update":
+                f["mutation_via_sparql_update"] = f.get("mutation_via_sparql_update", 0) + 1
+        # did some pattern's answer change between two of its evaluations?
+        last = {}
+        for st, o in zip([s for s in case["steps"] if s[0] == "eval"], obs):
+            key = str(st[1:4])
+            if key in last and last[key] != o:
+                f["answer_changed_on_re_evaluation"] = 1
+            last[key] = o
+        return f
+
+    def shrink(self, case):
+        st = case["steps"]
+        for i in range(len(st)):
+            yield dict(case, steps=st[:i] + st[i + 1:])
+        g = case["g"]
+        for i in range(len(g)):
+            yield dict(case, g=g[:i] + g[i + 1:])
+        for i, x in enumerate(st):
+            if x[0] == "eval":
+                for sp in subpaths(x[1]):
+                    # the same pattern may be used by several steps: simplify all its occurrences together
+                    yield dict(case, steps=[(["eval", sp] + y[2:]) if (y[0] == "eval" and y[1] == x[1]) else y for y in st])
+                if x[4] != "triples":
+                    yield dict(case, steps=st[:i] + [x[:4] + ["triples"]] + st[i + 1:])
+            elif x[-1] == "update":
+                yield dict(case, steps=st[:i] + [x[:-1] + ["api"]] + st[i + 1:])
+        if case["kind"] == "cg":
+            yield dict(case, kind="graph")
+
+    def sweep(self):
+        """eval; size-preserving swap; eval again - for every pattern of a small family and every swap on two graphs"""
+        P = ["iri", 3]
+        pats = [P, ["mul", P, "+"], ["mul", P, "*"], ["mul", P, "?"], ["inv", P], ["seq", [P, P]],
+                ["alt", [P, ["iri", 4]]], ["neg", [["iri", 4]]], ["seq", [["mul", P, "+"], ["iri", 4]]]]
+        graphs = [[[1, 3, 2], [2, 3, 12]], [[1, 3, 2], [2, 3, 12], [12, 4, 6]]]
+        news = [[2, 3, 6], [12, 3, 1], [1, 4, 2], [2, 3, 2]]
+        for g in graphs:
+            for old in g:
+                for new in news:
+                    if new in g:
+                        continue
+                    for p in pats:
+                        for s, o in ((None, None), (1, None), (None, 12), (1, 12)):
+                            for via, how in (("triples", "api"), ("sparql", "update")):
+                                if how == "update" and not (updatable(old) and updatable(new)):
+                                    continue
+                                ev = ["eval", p, s, o, via]
+                                yield {"kind": "graph", "g": g, "steps": [ev, ["swap", old, new, how], ev]}
+
+
+def contains_inv_member(ast):
+    if ast[0] == "neg":
+        return any(m[0] == "inv" for m in ast[1])
+    if ast[0] in ("inv", "mul"):
+        return contains_inv_member(ast[1])
+    if ast[0] in ("seq", "alt"):
+        return any(contains_inv_member(x) for x in ast[1])
+    return False
+
+
+SUITES = [C11(), C11H()]
